@@ -110,3 +110,15 @@ Definition representable_idf (p : pic) : Prop :=
   all_pic_cells (cell8_page0 Ice) p /\
   length (p_pal p) = 16%nat /\ Forall six_bit (p_pal p) /\
   (exists f, get_font (p_fonts p) 0 = Some f /\ font_wf 16 f).
+
+(* Tundra: width 1..1000 (carried by the SAUCE record; the loader replaces larger ones by 80), any number of rows, ice mode,
+   every cell visible, 8-bit character, font page 0, neither bold nor blinking (the format stores two 24-bit colours per
+   change and nothing else), colours given as palette indices below 2^31 (bit 31 marks direct RGB / the transparent colour),
+   and fewer than 2^30 cells (the loader numbers the colours it meets with u32 indices, of which bit 31 is special) *)
+Definition cell_tnd (c : cell) : Prop :=
+  (c_ch c < 256)%N /\ is_visible c = true /\ font_page (c_attr c) = 0%N /\
+  is_bold (c_attr c) = false /\ is_blinking (c_attr c) = false /\
+  (foreground_color (c_attr c) < 2147483648)%N /\ (background_color (c_attr c) < 2147483648)%N.
+
+Definition representable_tnd (p : pic) : Prop :=
+  rect p /\ 1 <= p_w p <= 1000 /\ p_w p * p_h p < 1073741824 /\ p_ice p = Ice /\ all_pic_cells cell_tnd p.
